@@ -10,6 +10,8 @@ import (
 	"fmt"
 	"math"
 	"math/big"
+	"regexp"
+	"strings"
 
 	apd "github.com/cockroachdb/apd/v3"
 )
@@ -65,6 +67,36 @@ func runExpModel(ctx apd.Context, x0 *apd.Decimal) string {
 	})
 }
 
+var ktRe = regexp.MustCompile(`^(ln10|invln10)\.vals\[(\d+)\]=\d+/(?:true|false)/(-?\d+)/coeff=[^/]*/[^/]*/[^/]*/[^/]*/(\d+)$`)
+
+// the rounded-constant tables of the running package, as "kt <name> <i> <coefficient> <exponent> =>" lines
+func emitConstTables() {
+	for _, l := range strings.Split(apd.VerifSnapshotGlobals(), "\n") {
+		if m := ktRe.FindStringSubmatch(l); m != nil {
+			emit(fmt.Sprintf("kt %s %s %s %s =>", m[1], m[2], m[4], m[3]))
+		}
+	}
+}
+
+func runLnModel(op string, ctx apd.Context, x0 *apd.Decimal) string {
+	return guard(fmt.Sprintf("lm %s %s %s", op, encCtx(&ctx), encDec(x0)), func() string {
+		c := ctx
+		x := clone(x0)
+		d := new(apd.Decimal)
+		var res apd.Condition
+		var err error
+		if op == "Log10" {
+			res, err = c.Log10(d, x)
+		} else {
+			res, err = c.Ln(d, x)
+		}
+		if encDec(x) != encDec(x0) {
+			return "OPERAND-MODIFIED"
+		}
+		return fmt.Sprintf("%s %d %s", encDec(d), uint32(res), encErr(err))
+	})
+}
+
 func init() {
 	streams["expm"] = func(r *rng, n int) {
 		for i := 0; i < n; i++ {
@@ -97,6 +129,55 @@ func init() {
 			}
 			emit(runExpModel(ctx, x))
 		}
+	}
+	// Stream "lnm": Ln and Log10 against the model of the power-series path (Model/Ln.v); operands mostly within 0.2 of
+	// one, or with a mantissa in [0.8, 1), so that the series is taken; the rest goes through Halley's iteration,
+	// which the model does not cover (the driver counts those cases separately).
+	//   lm <Ln|Log10> <ctx 5 fields> <x> => <d> <condition> <error>
+	streams["lnm"] = func(r *rng, n int) {
+		emitConstTables()
+		for i := 0; i < n; i++ {
+			ctx := r.genCtx(true)
+			if ctx.Precision > 40 {
+				ctx.Precision = uint32(r.rangeI(1, 40))
+			}
+			p := int(ctx.Precision)
+			op := "Ln"
+			if r.coin(35) {
+				op = "Log10"
+			}
+			var x *apd.Decimal
+			switch r.intn(10) {
+			case 0:
+				x = r.genDec(&ctx, 40)
+			case 1, 2, 3: // 1 +- delta, delta up to 0.2 and a little beyond, down to 10^-(2p)
+				k := r.rangeI(1, 2*p+4)
+				m := r.randDigits(r.rangeI(1, p+3))
+				delta := mkDec(apd.Finite, r.coin(50), m, -k-len(m.String())+r.rangeI(0, 1))
+				x = new(apd.Decimal)
+				apd.BaseContext.Add(x, apd.New(1, 0), delta)
+			case 4, 5, 6: // mantissa in [0.79, 1.0) times a power of ten
+				nd := r.rangeI(1, p+6)
+				m := r.randDigits(nd)
+				lead := new(big.Int).Mul(big.NewInt(int64(r.rangeI(79, 99))), pow10(nd))
+				m.Add(m, lead)
+				x = mkDec(apd.Finite, false, m, r.rangeI(-40, 40)-nd)
+			case 7: // exact powers of ten and their neighbours
+				k := r.rangeI(-30, 30)
+				x = mkDec(apd.Finite, false, big.NewInt(int64(r.pick([]int{1, 10, 100, 99, 101, 999, 1001}))), k)
+			default:
+				x = r.lnOperand(&ctx)
+			}
+			if x.Form == apd.Finite && (x.Coeff.Sign() < 0 || int(x.Exponent)+int(x.NumDigits()) > 300 || int(x.Exponent)+int(x.NumDigits()) < -300) {
+				x = mkDec(apd.Finite, false, big.NewInt(int64(r.rangeI(1, 99))), r.rangeI(-3, 1)) // keep the model's exact alignments small
+			}
+			emit(runLnModel(op, ctx, x))
+		}
+	}
+	replayers["lm"] = func(f []string) {
+		emitConstTables()
+		c := parseArith([]string{"ar", f[1], f[2], f[3], f[4], f[5], f[6], f[7], "_", "0", "n", "F:0:0:0"})
+		emit(runLnModel(f[1], c.Ctx, c.X))
 	}
 	replayers["xm"] = func(f []string) {
 		c := parseArith([]string{"ar", "Exp", f[1], f[2], f[3], f[4], f[5], f[6], "_", "0", "n", "F:0:0:0"})
